@@ -11,7 +11,9 @@ Parameters (DESIGN §2.3).  `c : Codec V` is Python's `float()/int()` and `'%g'/
 the theorems assume `ObsOK` (every written line is observed as what it is meant to be: the classification lemma, NOT
 proved here — the driver evaluates the real `analyse` on the bytes of every written file and checks it) and, for the
 fixpoint, that an end line which already carries the number `i` is left alone by `_event_footer` (`hsub`, checked
-likewise).
+likewise).  `Props/C06/Text.lean` discharges `ObsOK`, the format sniffing and `hsub` for the real `analyse` on the written
+TEXT (`C06_oscar_text`, `C06_jetscape_text`) from one formatting contract `Wr.FmtContract` and decidable side conditions on
+the copied lines.
 
 Histories.  `Tagged R` is the specification side: the events held, each tagged with the position in the input file of
 the event it came from (ghost `origin`); `runTagged ops` applies ANY list of filter steps (`Op.part p` for every
